@@ -131,6 +131,17 @@ def gen(rng, tier):
                 c["message"] = (bytes.fromhex(c["message"]) + b"x" * (want - have)).hex()
                 n_huge += want > 2000
         cases.append(c)
+    # deterministic sweep over the literals harvested from the code under test (see c04): message, author, committer, an extra
+    # header value and - for tokens that can be a header key - an extra header key all carry the token
+    from .gitobj_common import source_tokens
+    for i, t in enumerate(source_tokens("bytes")):
+        for mode in (("pre",) if tier == "quick" else ("pre", "suf", "whole")):
+            f = {"pre": lambda v: t + v, "suf": lambda v: v + t, "whole": lambda v: t}[mode]
+            key = t if (t and b" " not in t and b"\n" not in t and t not in (b"tree", b"parent", b"author", b"committer")) else b"x-custom"
+            cases.append({"message": f(b"subject\n\nbody\n").hex(), "author": f(b"A U Thor <a@b>").hex(), "date": [1234567890 + i, 0, b"+0000".hex()],
+                          "committer": f(b"C O Mitter <c@d>").hex(), "committer_date": [1234567890 + i, 0, b"-0130".hex()],
+                          "directory": (bytes([i % 251 + 1]) * 20).hex(), "parents": [(bytes([i % 250 + 2]) * 20).hex()],
+                          "extra": [[key.hex(), f(b"value").hex()]], "legacy": i % 3 == 0, "synthetic": False})
     return cases
 
 
